@@ -267,9 +267,19 @@ Prop_C12_FailsOnlyWhenExhausted ==
 Prop_C12_VarDiffers ==
   (pc = "ret" /\ call = "another_var" /\ ret > 0) => ret \notin blocked
 
-\* exhaustion: without objective, repeating find_another_solution visits every timing once
-\* and then fails (checked under FairSpec with the call alphabet restricted by the constraint)
-Exhausts == <>(Done /\ ret = 0)
+\* exhaustion (liveness): one solve(), then find_another_solution again and again: under weak fairness the
+\* enumeration reaches a definite "no other solution" (bounded V: every timing class is visited once, then
+\* the request fails).  Checked with SPECIFICATION LiveSpec (no state constraint; MaxCalls > number of
+\* points + 2 in the configuration).
+NextLive ==
+  \/ (nsolve = 0 /\ CallSolve)
+  \/ (nsolve = 1 /\ ret # 0 /\ CallFindAnother)
+  \/ \E w \in W : CheckSat(w) \/ LoopCheckSat(w)
+  \/ CheckUnsat \/ LoopMaxIter \/ LoopCheckUnsat
+  \/ StopBound \/ StopTime \/ PushBound \/ PopFrame \/ LoopExit
+  \/ Return
+LiveSpec == Init /\ [][NextLive]_vars /\ WF_vars(NextLive)
+Exhausts == ParetoMode \/ <>(pc = "idle" /\ ret = 0)
 
 TypeOK ==
   /\ pc \in {"idle", "plain", "loop", "found", "exit", "ret"}
